@@ -38,6 +38,7 @@ package httpcache
 //@   assigns upstreamCalls, lastUpstreamStatus, lastUpstreamFailed, now
 //@   ensures upstreamCalls == old(upstreamCalls) + 1                                          # name: one-upstream-call
 //@   ensures (resp != nil && resp.Header != nil && err == nil) || (resp == nil && err != nil) # name: result-shape
+//@   ensures resp != nil ==> fresh(resp) && fresh(resp.Header)                                # name: reply-is-fresh-object
 //@   ensures ns(start) >= ns(old(now)) && ns(end) >= ns(start) && ns(now) >= ns(end)          # name: times-ordered
 
 // The synthesised 504 (http.ReadResponse over constant bytes): trusted shape.
